@@ -34,7 +34,7 @@ Max(a, b) == IF a > b THEN a ELSE b
 
 NoCall == [op |-> "none", k |-> 0, v |-> 0, cost |-> 0, ttl |-> 0, t |-> 0, ac |-> FALSE]
 NoLin  == [kind |-> "none", found |-> 0, v |-> 0, e |-> 0, cost |-> 0, ttl |-> 0, t |-> 0]
-NoEn   == [k |-> 0, v |-> 0, cost |-> 0, dl |-> 0, left |-> "none", notified |-> 0, ub |-> 0, gone |-> FALSE, dead |-> FALSE]
+NoEn   == [k |-> 0, v |-> 0, cost |-> 0, dl |-> 0, left |-> "none", notified |-> 0, ub |-> 0, gone |-> FALSE, dead |-> FALSE, st |-> 0]
 
 Init0 == [tid |-> "none", line |-> 0, maxsize |-> 0, pool |-> 0, door |-> 0, loading |-> 0, mode |-> "none",
           mp |-> [k \in KeyDom |-> 0], en |-> <<>>, pc |-> <<>>, lin |-> <<>>, pn |-> <<>>,
@@ -42,7 +42,7 @@ Init0 == [tid |-> "none", line |-> 0, maxsize |-> 0, pool |-> 0, door |-> 0, loa
           sent |-> <<>>, appl |-> <<>>, psent |-> <<>>, owes |-> <<>>, need |-> <<>>,
           gets |-> 0, hits |-> 0, lp |-> [k \in KeyDom |-> "none"], lrun |-> [k \in KeyDom |-> 0], lfail |-> <<>>, lcur |-> [k \in KeyDom |-> {}], lmine |-> <<>>, rv |-> <<>>, rdirty |-> <<>>, pl |-> <<>>,
           lastTick |-> -1, stalled |-> FALSE, heldAcc |-> 0, thresh |-> 28610, tick |-> 1024, nsnap |-> 0, nnotif |-> 0, nevents |-> 0, viol |-> {}, traces |-> 0, hangs |-> 0,
-          stuck |-> 0, skipped |-> 0, una |-> {}, qcap |-> 1024, batch |-> 128, sight |-> <<>>]
+          stuck |-> 0, skipped |-> 0, una |-> {}, qcap |-> 1024, batch |-> 128, sight |-> <<>>, tickSeq |-> 0]
 
 V(s, prop, kind) ==
   IF Cardinality(s.viol) >= 40 THEN s
@@ -259,7 +259,9 @@ DoPostSend(s, e) ==
 DoSinkOut(s, e) ==
   LET s1 == Owed(s, e.p)
       o == En(s1, e.e)
-      s2 == [s1 EXCEPT !.appl = BagAdd(s1.appl, <<e.e, e.code, e.delta>>), !.una = IF e.code = "NEW" THEN @ \ {e.e} ELSE @]
+      \* st: the tick count when the entry's (re)scheduling event was applied - the wheel can only collect it on a later tick
+      s2 == [s1 EXCEPT !.appl = BagAdd(s1.appl, <<e.e, e.code, e.delta>>), !.una = IF e.code = "NEW" THEN @ \ {e.e} ELSE @,
+                       !.en = IF e.code \in {"NEW", "UPDATE"} THEN Put(s1.en, e.e, [o EXCEPT !.st = s1.tickSeq]) ELSE @]
   IN IF e.code = "REMOVE" /\ e.dd = 1
      THEN [s2 EXCEPT !.en = Put(s2.en, e.e, [o EXCEPT !.gone = TRUE]),
                      !.press = IF o.gone THEN s2.press ELSE s2.press - o.ub]
@@ -356,7 +358,8 @@ DoSnap(s, e) ==
       \* C16 counters
       n == Vif(m, e.q = 1 /\ (e.hits # s.hits \/ e.hits + e.misses # s.gets), "C16", "hit_miss_counters_differ_from_calls")
       \* C04 seen from the store: after a tick at time T nothing resident is overdue by a finest tick
-      o == Vif(n, q /\ nopool /\ s.lastTick = e.t /\ \E i \in DOMAIN res : res[i][4] # 0 /\ (res[i][4] \div s.tick) < (e.t \div s.tick),
+      o == Vif(n, q /\ nopool /\ s.lastTick = e.t /\ \E i \in DOMAIN res : res[i][4] # 0 /\ (res[i][4] \div s.tick) < (e.t \div s.tick)
+                                                            /\ En(s, res[i][2]).st < s.tickSeq,
                "C04", "resident_entry_overdue_after_tick")
   IN IF q
      THEN [o EXCEPT !.nsnap = s.nsnap + 1,
@@ -368,7 +371,7 @@ DoSnap(s, e) ==
                     !.sent = <<>>, !.appl = <<>>, !.psent = <<>>, !.owes = <<>>, !.una = {}]
      ELSE o
 
-DoTickLocked(s, e) == [Owed(s, e.p) EXCEPT !.lastTick = e.t, !.stalled = TRUE, !.heldAcc = 0]
+DoTickLocked(s, e) == [Owed(s, e.p) EXCEPT !.lastTick = e.t, !.stalled = TRUE, !.heldAcc = 0, !.tickSeq = @ + 1]
 
 DoHang(s, e) ==
   \* a Wait that never returns breaks C20; any call (Wait included) that hangs around Close breaks C10
